@@ -35,6 +35,7 @@ def parseOp (args : List String) : Option Op :=
   | ["endr"] => some .endR
   | ["reopen"] => some .reopen
   | ["probe"] => some .probe
+  | ["raw"] => some .raw
   | [op, sl, p] => do
     let s ← parseSlot sl
     let p ← parsePath p
